@@ -842,7 +842,9 @@ def emitInside (l : Lexer) (t : ItemType) : Res := do
   let l ← l.emit t
   pure (some .insideTag, l)
 
-def symbolChars : List Int := [42, 47, 37, 43, 45, 61, 33, 60, 62, 124, 38, 63, 58] -- "*/%+-=!<>|&?:"
+/-- what may continue a 1-character comparison symbol: only `=` (`>=` `<=` `!=` `==`); `$a<-1` is
+    `$a < -1` (/repo 967cc86; it was "*/%+-=!<>|&?:", so `<-` was one unknown symbol) -/
+def symbolChars : List Int := [61] -- "="
 
 /-- lexInsideTag, `case r == '>', r == '!', r == '<', r == '=' && l.peek() == '='`:
     1 or 2 character symbols -/
